@@ -715,8 +715,26 @@ def _slice_from_grid(run, P):
                             grids = [norm(y.value) for y in ast.walk(val) if isinstance(y, ast.Attribute) and y.attr == "_ds"]
                             if keys == [f"subgrid_{kind}_indices"] and grids == [f.params()[1]]:
                                 ok = True
+            # second idiom: the branch only CHOOSES the indexer (name = {"n_face": <indexer>}); one isel(**name) after the chain applies it
+            deferred = None
+            if not ok:
+                for a_ in st.body:
+                    if isinstance(a_, ast.Assign) and len(a_.targets) == 1 and isinstance(a_.targets[0], ast.Name) and isinstance(a_.value, ast.Dict):
+                        used = any(isinstance(x, ast.Call) and isinstance(x.func, ast.Attribute) and x.func.attr == "isel" and any(k.arg is None and norm(k.value) == a_.targets[0].id for k in x.keywords)
+                                   for x in ast.walk(f.node))
+                        if used:
+                            deferred = a_
+                            for kk, vv in zip(a_.value.keys, a_.value.values):
+                                if kk is not None and str_const(kk) == KIND_DIM[kind]:
+                                    keys = [y.value for y in ast.walk(vv) if isinstance(y, ast.Constant) and isinstance(y.value, str)]
+                                    grids = [norm(y.value) for y in ast.walk(vv) if isinstance(y, ast.Attribute) and y.attr == "_ds"]
+                                    if keys == [f"subgrid_{kind}_indices"] and grids == [f.params()[1]]:
+                                        ok = True
+            any_isel = any(isinstance(x, ast.Call) and isinstance(x.func, ast.Attribute) and x.func.attr == "isel" for x in ast.walk(ast.Module(body=st.body, type_ignores=[])))
             if ok:
                 run.holds("F-TABLE/slice-data", c, where(f, st), f"{kind}-centred data sliced with the sliced grid's subgrid_{kind}_indices along {KIND_DIM[kind]}")
+            elif not any_isel and deferred is None:
+                run.incomplete("F-TABLE/slice-data", c, where(f, st), f"the branch for {kind}-centred data contains no isel and chooses no indexer dict: how the data are sliced is not recognised")
             else:
                 run.violation("F-TABLE/slice-data", c, where(f, st), f"{kind}-centred data are not sliced along {KIND_DIM[kind]} with sliced_grid._ds['subgrid_{kind}_indices']")
         nxt = st.orelse[0] if len(st.orelse) == 1 and isinstance(st.orelse[0], ast.If) else None
